@@ -37,6 +37,8 @@ RegapT(g) == /\ Len(hist) < MaxCalls /\ g # gaps
 (* explicitly, or - when its content is the apps' documented default, id 1 = make_dna_scoring_dict(10, -1, -8) -    *)
 (* left out, with the molecular type that selects the default given by name or as a MolType object.  The model    *)
 (* the call must be optimal for is <<cur, gaps>> in every case.                                                    *)
+(* The reference of align_to_ref may be named or left at its default ("longest"): an option that does not touch    *)
+(* the model - the harness alternates between the two.                                                               *)
 DefaultContent == 1
 Vias == IF cur = DefaultContent THEN {"explicit", "default:name", "default:object"} ELSE {"explicit"}
 Align(mode) == AlignT(mode) /\ Emit([act |-> "Align", mode |-> mode, hist |-> hist, model |-> cur, gaps |-> gaps, vias |-> Vias])
